@@ -37,6 +37,8 @@ func runC19(p *load.Program, r *oblig.Report) {
 	c19Conn(p, r)
 	c19ClientErrors(p, r)
 	c19BrokerPlaceholders(p, r)
+	c19AwaitAll(p, r, "C19.R8 every part of a split request reaches the merger")
+	c19TopicErrorFirst(p, r, "C19.R6 ConsumerOffsets reports the coordinator's errors")
 }
 
 // ---------- provenance rendering
@@ -762,7 +764,11 @@ func c19Seek(p *load.Program, r *oblig.Report) {
 		s = clean(s)
 		s = strings.ReplaceAll(s, "ReadOffsets(c)#0", "first")
 		s = strings.ReplaceAll(s, "ReadOffsets(c)#1", "last")
-		s = strings.ReplaceAll(s, fmt.Sprintf("(%d & whence)", ^consts["SeekDontCheck"]), "W")
+		s = strings.ReplaceAll(s, fmt.Sprintf("(%d & whence)", ^consts["SeekDontCheck"]), "W0")
+		// repair fbd94f8: a seek relative to the current offset, when that is still the placeholder for the first or
+		// the last offset, becomes a seek relative to the start, or to the end with the distance negated
+		s = strings.ReplaceAll(s, fmt.Sprintf("φ{W0 | %d | %d}", consts["SeekStart"], consts["SeekEnd"]), "W")
+		s = strings.ReplaceAll(s, "φ{-offset | offset}", "D")
 		return s
 	}
 	val := sub(an.ShapeCanon(final.Val))
@@ -778,8 +784,8 @@ func c19Seek(p *load.Program, r *oblig.Report) {
 			}
 		})
 	}
-	// expected: φ{ (first + O) | (last - O) | O } with O = φ{(c.offset + offset) | offset}
-	wantVal := "φ{(first + φ{(c.offset + offset) | offset}) | (last - φ{(c.offset + offset) | offset}) | φ{(c.offset + offset) | offset}}"
+	// expected: φ{ (first + O) | (last - O) | O } with O = φ{(c.offset + D) | D}, D = φ{-offset | offset}
+	wantVal := "φ{(first + φ{(c.offset + D) | D}) | (last - φ{(c.offset + D) | D}) | φ{(c.offset + D) | D}}"
 	r.Check(val == wantVal, rule, "kafka.(*Conn).Seek computes the target from first / last / current", p.Pos(final.At.Pos()), wantVal, val)
 	// which arm under which whence: look at the two arithmetic binops
 	for _, w := range []struct {
@@ -810,8 +816,8 @@ func c19Seek(p *load.Program, r *oblig.Report) {
 	curOK := false
 	an.EachInstr(seek, func(ins ssa.Instruction) {
 		bo, ok := ins.(*ssa.BinOp)
-		if !ok || bo.Op != token.ADD || sub(an.ShapeCanon(bo)) != "(c.offset + offset)" || !an.Dominates(bo, calls[0]) && bo.Block() != calls[0].Block() && !bo.Block().Dominates(calls[0].Block()) {
-			if ok && bo.Op == token.ADD && sub(an.ShapeCanon(bo)) == "(c.offset + offset)" {
+		if !ok || bo.Op != token.ADD || sub(an.ShapeCanon(bo)) != "(c.offset + D)" || !an.Dominates(bo, calls[0]) && bo.Block() != calls[0].Block() && !bo.Block().Dominates(calls[0].Block()) {
+			if ok && bo.Op == token.ADD && sub(an.ShapeCanon(bo)) == "(c.offset + D)" {
 				for _, c := range selConds(bo) {
 					if sub(c) == fmt.Sprintf("(%d == W)", consts["SeekCurrent"]) {
 						curOK = true
@@ -827,6 +833,7 @@ func c19Seek(p *load.Program, r *oblig.Report) {
 		}
 	})
 	r.Check(curOK, rule, "kafka.(*Conn).Seek adds the current offset for SeekCurrent", p.Pos(seek.Pos()), fmt.Sprintf("offset = c.offset + offset when (%d == W)", consts["SeekCurrent"]), "not recognised")
+	c19SeekPlaceholders(p, r, seek, consts, sub)
 	// range check: the OffsetOutOfRange return and the final store are separated by offset < first || offset > last
 	var oor *ssa.Return
 	an.EachInstr(seek, func(ins ssa.Instruction) {
@@ -1126,6 +1133,54 @@ func c19Conn(p *load.Program, r *oblig.Report) {
 		r.Check(isolated && nTest > 0, rule, "kafka."+name+" reports a topic's error only when that topic is the connection's (or the connection has none)", p.Pos(f.Pos()),
 			"t.TopicErrorCode != 0 && (c.topic == \"\" || t.TopicName == c.topic)", "the error return is reachable without a test on c.topic")
 	}
+}
+
+// c19SeekPlaceholders: a new connection's offset is the placeholder FirstOffset (-2), LastOffset (-1) stands for the
+// end. Adding a distance to the placeholder itself answers nonsense (Seek(150, SeekCurrent) = 148): under SeekCurrent
+// the current position is asked for with Offset(), and a placeholder turns the seek into one relative to the start, or
+// to the end with the distance negated (SeekEnd subtracts).
+func c19SeekPlaceholders(p *load.Program, r *oblig.Report, seek *ssa.Function, consts map[string]int64, sub func(string) string) {
+	const rule = "C19.R9 Seek relative to the current offset resolves the first/last placeholders"
+	has := func(conds []string, want string) bool {
+		for _, c := range conds {
+			if sub(c) == want {
+				return true
+			}
+		}
+		return false
+	}
+	cur := fmt.Sprintf("(%d == W0)", consts["SeekCurrent"])
+	negOK, startOK, endOK := false, false, false
+	an.EachInstr(seek, func(ins ssa.Instruction) {
+		switch x := ins.(type) {
+		case *ssa.UnOp:
+			if x.Op == token.SUB && clean(an.Shape(x.X)) == "offset" {
+				conds := selConds(x)
+				negOK = has(conds, cur) && has(conds, fmt.Sprintf("(%d == Offset(c)#1)", consts["SeekEnd"]))
+			}
+		case *ssa.Phi:
+			if sub(an.ShapeCanon(x)) != "W" {
+				return
+			}
+			for i, e := range x.Edges {
+				k, isK := an.ConstInt(e)
+				if !isK {
+					continue
+				}
+				pred := x.Block().Preds[i]
+				conds := selConds(pred.Instrs[len(pred.Instrs)-1])
+				if k == consts["SeekStart"] && has(conds, cur) && has(conds, fmt.Sprintf("(%d == Offset(c)#1)", consts["SeekStart"])) {
+					startOK = true
+				}
+				if k == consts["SeekEnd"] && has(conds, cur) && has(conds, fmt.Sprintf("(%d == Offset(c)#1)", consts["SeekEnd"])) {
+					endOK = true
+				}
+			}
+		}
+	})
+	// the resolution comes before the unchecked shortcut: no store of c.offset precedes it
+	r.Check(negOK && startOK && endOK, rule, "kafka.(*Conn).Seek → SeekCurrent from FirstOffset seeks from the start, from LastOffset from the end with the distance negated", p.Pos(seek.Pos()),
+		"switch _, current := c.Offset(); current { case SeekStart: whence = SeekStart; case SeekEnd: whence, offset = SeekEnd, -offset }", fmt.Sprintf("start=%v end=%v negated=%v", startOK, endOK, negOK))
 }
 
 func init() {
